@@ -173,6 +173,30 @@ fn family() -> Vec<SetCase> {
     out
 }
 
+/// A user function that evaluates another ruleset inline, between repeated cacheable calls (see `probe::nested_evaluation`).
+pub fn check_nested_evaluation(suspend: u32, nest_cacheable: bool) -> Verdict {
+    let (outer, log) = probe::nested_evaluation(suspend, false, nest_cacheable);
+    let out = catch(|| block_on(outer.evaluate_value(&Value::None)).expect("evaluate_value").into_iter().map(|o| o.value).collect::<Vec<_>>())
+        .map_err(|p| Issue::new("cache:nested:panic", format!("an evaluation whose user function evaluates another ruleset inline panicked: {p}")))?;
+    let got = multiset(&log.lock().unwrap());
+    let want = probe::nested_expected(nest_cacheable);
+    let n = if nest_cacheable { 1 } else { 2 };
+    let _ = n;
+    let values_ok = out.len() == 3 && out.iter().all(|v| v.is_ok());
+    if got != want || !values_ok {
+        return Err(Issue::new(
+            "cache:nested-evaluation",
+            format!(
+                "a user function `nest` (cacheable: {nest_cacheable}) evaluates another ruleset inline between repeated cacheable calls (functions suspend {suspend}x): invocations {:?}, expected {:?}; outcomes {:?}",
+                got,
+                want,
+                out.iter().map(|v| v.as_ref().map(crate::data::show_value).map_err(|e| e.to_string())).collect::<Vec<_>>()
+            ),
+        ));
+    }
+    Ok(())
+}
+
 pub fn run(ctx: &Ctx) {
     ctx.set_rule(
         "Generated call histories: (1) exhaustive family: two/three call sites over every ordered pair of 17 equal / similar-but-distinct \
@@ -303,6 +327,72 @@ pub fn run(ctx: &Ctx) {
         "setcase",
     );
 
+    // arguments that differ in structure but read alike once their parts are written next to each other (a text holding
+    // the very delimiters a rendering of lists and maps would put between items): distinct arguments, distinct invocations
+    let alike: Vec<SetCase> = {
+        let st = |s: &str| Value::String(s.to_string());
+        let list = |v: &[&str]| Value::Vec(v.iter().map(|s| st(s)).collect());
+        let map = |v: &[(&str, &str)]| crate::pool::map(&v.iter().map(|(k, x)| (*k, st(x))).collect::<Vec<_>>());
+        let mut pairs: Vec<(Value, Value)> = vec![];
+        for d in ["\",\"", "\", \"", ",", ", ", "\"),String(\"", "\"), String(\"", "','", "', '", "\\\",\\\"", "\n", "\",\n\""] {
+            pairs.push((list(&[&format!("x{d}y")]), list(&["x", "y"])));
+            pairs.push((list(&[&format!("x{d}y"), "z"]), list(&["x", &format!("y{d}z")])));
+        }
+        for d in ["\",\"b\":\"", "\", \"b\": \"", "\",b:\"", ", b: ", "\"),(\"b\",String(\"", "\"), \"b\": String(\""] {
+            pairs.push((map(&[("a", &format!("p{d}q"))]), map(&[("a", "p"), ("b", "q")])));
+        }
+        pairs.push((list(&["1"]), Value::Vec(vec![Value::Int(1)])));
+        pairs.push((list(&["i1"]), Value::Vec(vec![Value::Int(1)])));
+        pairs.push((list(&["[]"]), Value::Vec(vec![Value::Vec(vec![])])));
+        pairs.push((list(&["None"]), Value::Vec(vec![Value::None])));
+        pairs.push((list(&["none"]), Value::Vec(vec![Value::None])));
+        pairs.push((map(&[("a", "{}")]), crate::pool::map(&[("a", crate::pool::map(&[]))])));
+        pairs.push((Value::Vec(vec![list(&["a"]), list(&["b"])]), Value::Vec(vec![list(&["a", "b"])])));
+        pairs.push((Value::Vec(vec![list(&[]), list(&["a"])]), Value::Vec(vec![list(&["a"]), list(&[])])));
+        pairs
+            .into_iter()
+            .flat_map(|(a, b)| {
+                [false, true].into_iter().map(move |swap| {
+                    let (first, second) = if swap { (b.clone(), a.clone()) } else { (a.clone(), b.clone()) };
+                    let mut fns = BTreeMap::new();
+                    fns.insert("fa".to_string(), me::FnSpec { cacheable: true, fail_on: vec![], fail_first: 0, uncacheable_after: 0 });
+                    let f = |v: &Value| Expr::func("fa", Expr::Value(v.clone()));
+                    SetCase {
+                        spec: SetSpec { rules: vec![("r0".into(), Expr::Vec(vec![f(&first), f(&second), f(&first)])), ("r1".into(), f(&second))], fns, symbols: BTreeMap::new(), suspend: 0 },
+                        inputs: vec![Value::None],
+                    }
+                })
+            })
+            .collect()
+    };
+    ctx.enumerate(
+        "arguments-that-read-alike",
+        alike.len() as u64,
+        true,
+        |i, acc| {
+            acc.cell("read-alike", true);
+            if i % 7 == 0 {
+                acc.sample("read-alike", || alike[i as usize].render().chars().take(240).collect());
+            }
+            check(&alike[i as usize])
+        },
+        |i| alike[i as usize].to_json(),
+        "setcase",
+    );
+
+    ctx.enumerate(
+        "nested-evaluations",
+        6,
+        true,
+        |i, acc| {
+            acc.cell("nested", true);
+            acc.sample("nested", || "rules [fa(1), fb(2)]; [nest(5), fa(1), nest(5)]; [fa(1), fb(2), fa(3)] where nest evaluates another ruleset that calls fa(1), fa(1), fb(2); fa(1)".to_string());
+            check_nested_evaluation((i / 2) as u32, i % 2 == 0)
+        },
+        |i| serde_json::json!({"nested_evaluation": [i / 2, i % 2 == 0]}),
+        "nested",
+    );
+
     // the same cache model when evaluations of one ruleset are interleaved (the schedule is owned by the harness, as in C12):
     // each evaluation's invocations are what it makes on its own
     let ni = ctx.tier.pick(20_000u64, 400_000u64);
@@ -361,6 +451,9 @@ pub fn run(ctx: &Ctx) {
 }
 
 pub fn replay(j: &serde_json::Value) -> Option<Verdict> {
+    if let Some(a) = j.get("nested_evaluation").and_then(|a| a.as_array()) {
+        return Some(check_nested_evaluation(a.first()?.as_u64()? as u32, a.get(1)?.as_bool()?));
+    }
     if j.get("interleaved").is_some() {
         return super::c12::replay(j).map(|v| v.map_err(|i| Issue::new(i.sig.replace("sched:", "cache:interleaved:"), i.msg)));
     }
